@@ -229,7 +229,12 @@ pub fn predicate(r: &mut Rng, s: &Scope, depth: u32, feats: &mut Vec<&'static st
             feats.push("in_list");
             let n = 1 + r.usize(3);
             let vs: Vec<String> = (0..n).map(|_| literal_near(r, &c.def)).collect();
-            format!("({} IN ({}))", c.sql, vs.join(", "))
+            if r.chance(1, 4) {
+                feats.push("not_in_list");
+                format!("({} NOT IN ({}))", c.sql, vs.join(", "))
+            } else {
+                format!("({} IN ({}))", c.sql, vs.join(", "))
+            }
         }
         7 if !s.cols.is_empty() => {
             feats.push("is_null");
@@ -241,7 +246,12 @@ pub fn predicate(r: &mut Rng, s: &Scope, depth: u32, feats: &mut Vec<&'static st
             feats.push("between");
             let c = *r.pick(&nums);
             let (a, b) = (literal_near(r, &c.def), literal_near(r, &c.def));
-            format!("({} BETWEEN {} AND {})", c.sql, a, b)
+            if r.chance(1, 3) {
+                feats.push("not_between");
+                format!("({} NOT BETWEEN {} AND {})", c.sql, a, b)
+            } else {
+                format!("({} BETWEEN {} AND {})", c.sql, a, b)
+            }
         }
         _ => {
             if !nums.is_empty() {
@@ -313,6 +323,15 @@ fn gen_from(r: &mut Rng, cat: &Catalog, feats: &mut Vec<&'static str>, allow_cte
                     let s = Scope { cols: cols.clone() };
                     on = format!("{} AND {}", on, predicate(r, &s, 0, feats));
                     feats.push("join_on_extra");
+                } else if r.chance(1, 6) {
+                    // a disjunction: the key equality no longer bounds the number of matches
+                    let s = Scope { cols: cols.clone() };
+                    let ln: Vec<&ColRef> = s.cols.iter().filter(|c| c.sql.starts_with("l.") && kind_of(&c.def) == Ty::Num).collect();
+                    let rn: Vec<&ColRef> = s.cols.iter().filter(|c| c.sql.starts_with("r.") && kind_of(&c.def) == Ty::Num).collect();
+                    if !ln.is_empty() && !rn.is_empty() {
+                        on = format!("{} OR {} = {}", on, r.pick(&ln).sql, r.pick(&rn).sql);
+                        feats.push("join_on_or");
+                    }
                 }
                 if r.chance(1, 4) {
                     // both sides are sub-queries (each input of the join is then a node of its own)
